@@ -510,5 +510,18 @@ def make_config(case, base_dir, cfgdir, root=None, part=None, context=_DEFAULT, 
         fp = f'{path}#{part}'
     else:
         fp = path
-    return taskchain.Config(Path(base_dir), fp, global_vars=make_global_vars(case, cfgdir),
-                            context=make_context(case, cfgdir, ctx_pool) if context is _DEFAULT else context, **kw)
+    ctx = make_context(case, cfgdir, ctx_pool) if context is _DEFAULT else context
+    ri = case['root'] if root is None else root
+    if case.get('uses_as_objects') and not part and not rf.get('parts') and rf['node']['uses']:
+        # the same tree with the root given as Config(data=...) whose `uses` holds Config OBJECTS (each a fresh object,
+        # built from the file the string form names, under the namespace the string form gives)
+        gv = make_global_vars(case, cfgdir)
+        data = node_data(case, cfgdir, rf['node'], ri, rf.get('key_order'))
+        objs = []
+        for u in rf['node']['uses']:
+            uf = case['files'][u['file']]
+            up = str(file_path(cfgdir, uf)) + (('#' + u['part']) if u.get('part') else '')
+            objs.append(taskchain.Config(Path(base_dir), up, namespace=u.get('ns') or None, global_vars=gv))
+        data['uses'] = objs
+        return taskchain.Config(Path(base_dir), name=rf['name'].split('/')[-1], data=data, global_vars=gv, context=ctx)
+    return taskchain.Config(Path(base_dir), fp, global_vars=make_global_vars(case, cfgdir), context=ctx, **kw)
